@@ -123,6 +123,14 @@ STRENGTH = {
  "C06-H": "missed at first; launches are now also made while four goroutines of the launcher loop over unixsocket.NewSocketPair and memfd.DupToMemfd",
  "C08-H": "missed at first; the file-size and CPU limits are now also exhausted by a forked child (the parent waits and exits 128+signal) and by a second thread",
  "C10-H": "first detection had no concrete input (the regenerated Ping no longer matched C10_gen_simple_calls); the container init is now stopped for longer than a Ping waits and continued, and the calls after it must all fail or all get their own answer",
+ "C11-H": "missed at first; a program that spends its life in trapped system calls is now cancelled at many instants under the tracing runner (the cancellation meets it between a stop and the tracer's look at its registers)",
+ "C12-H": "first detection had no concrete input (the order of kill and reply in the regenerated paths); the program now leaves a process behind that answers every byte on the run's standard input, and the host writes one the moment Execve returns",
+ "C13-H": "missed at first; a hostile tenant now tries to make every directory it can see writable (the root, /proc, the masked directories, a read-only bind) and plants entries there; after Reset the next tenant must find none",
+ "C14-H": "first detection had no concrete input (regenerated handleOpen no longer matched); a regular file and a directory are now exchanged from outside, through a shared writable bind, under batches that also ask for an untouched file",
+ "C15-H": "missed at first; openat2 is now called with every size of the open_how block a program can claim (0..23, 25, huge) and with short readable blocks",
+ "C16-H": "missed by inspection: extended before its first run on reading the description (the window itself, a controller killed before its init armed the parent-death signal, cannot be reached from outside): the end-of-file rule of the model is now tried on the real socket pair and the socket type is a regenerated fact (C16_gen_socket_is_seqpacket)",
+ "C19-H": "first detection had no concrete input (regenerated RecvMsg no longer matched); programs are now launched by another goroutine while messages of 200 descriptors are being received, and none may inherit the file",
+ "C20-H": "missed at first; after a limit was written through a handle somebody else changes the file and the handle writes its limit again: the file must hold it",
 }
 
 out = []
